@@ -390,7 +390,8 @@ PLUGS = {
                 with_oracles(gen.scenarios_tagged(seed + 4, sizes(tier, 500, 8000)), ['c03'], op='try_collect') +
                 with_oracles(gen.scenarios_inherited_hook(seed, sizes(tier, 300, 4000)), ['c03']) +
                 with_oracles(gen.scenarios_boost(seed, sizes(tier, 150, 2000), op='try_collect'), ['c03']) +
-                with_oracles(gen.scenarios_vol(seed, sizes(tier, 200, 3000), op='try_collect'), ['c03']),
+                with_oracles(gen.scenarios_vol(seed, sizes(tier, 200, 3000), op='try_collect'), ['c03']) +
+                with_oracles(gen.scenarios_union_boundary(seed, sizes(tier, 200, 3000), ops=('try_collect',)), ['c03']),
                 project=proj_try_collect, oracles=['c03'], disagreement_is_failure=False),
     'C04': dict(streams=lambda seed, tier: conv_stream(seed, sizes(tier, 1500, 30000), 'from_data', ['c04']) +
                 [dict(s, oracles=['c04']) for s in matrix_stream(seed)] +
@@ -445,7 +446,8 @@ PLUGS = {
                 with_oracles(gen.scenarios_special_unions(seed, sizes(tier, 400, 5000)), ['c11']) +
                 with_oracles(gen.scenarios_union_boundary(seed, sizes(tier, 300, 4000), ops=('from_data', 'roundtrip')), ['c11']) +
                 gen.scenarios_unionnorm(seed, sizes(tier, 400, 5000)) +
-                with_oracles(gen.scenarios_vol(seed, sizes(tier, 200, 3000), op='from_data'), ['c11']),
+                with_oracles(gen.scenarios_vol(seed, sizes(tier, 200, 3000), op='from_data'), ['c11']) +
+                [sc for sc in gen.scenarios_handlers(seed, sizes(tier, 1500, 20000)) if '"union"' in json.dumps([sc.get('ty'), sc.get('decl')])],
                 project=proj_verdict_value, oracles=['c11'], disagreement_is_failure=True),
     'C12': dict(streams=lambda seed, tier: gen.scenarios_tagged(seed, sizes(tier, 1500, 25000)) +
                 with_defaultdicts(gen.scenarios_tagged(seed + 9, sizes(tier, 600, 8000)), seed),
